@@ -81,6 +81,22 @@ pub fn run(f: &[&str]) -> String {
                     let c: Value = o.clone().into_iter().collect();
                     if &c != v { diffs.push("FromIterator-pairs"); }
                 }
+                // Map<String, Value> as a target on the Value routes: exactly the objects, by value and by reference
+                {
+                    let byv = serde_json::from_value::<Map<String, Value>>(v.clone());
+                    let byr = Map::<String, Value>::deserialize(v);
+                    match (v, &byv, &byr) {
+                        (Value::Object(o), Ok(a), Ok(b)) if a == o && b == o => {}
+                        (Value::Object(_), _, _) => diffs.push("Map-target-from-Value"),
+                        (_, Err(_), Err(_)) => {}
+                        _ => diffs.push("Map-target-from-Value-accepts-non-object"),
+                    }
+                    // the same one level down (array elements)
+                    let w = Value::Array(vec![v.clone()]);
+                    let byv = serde_json::from_value::<Vec<Map<String, Value>>>(w.clone()).is_ok();
+                    let byr = Vec::<Map<String, Value>>::deserialize(&w).is_ok();
+                    if byv != v.is_object() || byr != v.is_object() { diffs.push("Map-target-nested-from-Value"); }
+                }
                 if let Value::Array(a) = v {
                     let c: Value = a.clone().into_iter().collect();
                     if &c != v { diffs.push("FromIterator-seq"); }
@@ -151,6 +167,12 @@ pub fn run(f: &[&str]) -> String {
                         'b' => bool::deserialize(&mut de).map(|v| format!("b{}", v)),
                         'i' => IgnoredAny::deserialize(&mut de).map(|_| "i".to_string()),
                         'n' => <()>::deserialize(&mut de).map(|_| "n".to_string()),
+                        'l' => i64::deserialize(&mut de).map(|v| format!("z{}", v)),
+                        'L' => u64::deserialize(&mut de).map(|v| format!("z{}", v)),
+                        'I' => i128::deserialize(&mut de).map(|v| format!("z{}", v)),
+                        'U' => u128::deserialize(&mut de).map(|v| format!("z{}", v)),
+                        'h' => i16::deserialize(&mut de).map(|v| format!("z{}", v)),
+                        'B' => u8::deserialize(&mut de).map(|v| format!("z{}", v)),
                         _ => return "BADCASE".into(),
                     };
                     out.push(match r { Ok(s) => format!("ok:{}", s), Err(e) => format!("err:{}", code_name(&e)) });
